@@ -166,7 +166,7 @@ def group_families(H, quick, obligations):
     for name, roots, budget in fams:
         alpha = (lambda roots: (lambda n: roots if n.depth == 1 else GROUP_LEAVES))(roots)
         out.append((name, make_factory(H, budget, alpha, 1200, lambda ex, it, root: obligations(ex, it, root, ref_fuel=250))))
-    for name, alpha, budget in TC.interplay_families(True, "ABCE" if quick else "ABCDE"):
+    for name, alpha, budget in TC.interplay_families(True, "AFCE" if quick else "ABFCDE"):
         out.append((name, make_factory(H, budget, alpha, 4000, lambda ex, it, root: obligations(ex, it, root, ref_fuel=400))))
     return out
 
@@ -238,6 +238,9 @@ def main():
     budget = 4 if quick else 5
     parts = [("type_check B(%d) with holes" % budget, make_factory(H, budget, TC.WITH_HOLES, 60000, c03_obligations))]
     parts += group_families(H, quick, c03_obligations) if not os.environ.get("SKIPFAM") else []
+    only = os.environ.get("C03_PARTS")
+    if only:
+        parts = [p for i, p in enumerate(parts) if str(i) in only.split(",")]
     for name, mk in parts:
         t0 = time.time()
         m = parallel_explore(mk, H.jobs)
